@@ -23,4 +23,6 @@ if h is None:
 print('harness:', h)
 res, err = m.run_loom('C01')
 print('loomsearch:', 'ok' if not err else err[-500:])
+res, err = m.run_miri('C15')
+print('mirisearch:', res if not err else err[-500:])
 PY
